@@ -131,13 +131,14 @@ def check(prop, tier, replay=None):
                     if f["sched"]:
                         sched += 1
                         t = P["tasks"][i]
-                        user_ms = t["effort"] == 0 and (t["pin"] >= 0 or t["pinEnd"] >= 0)
+                        user_ms = t["effort"] == 0 and (t["pin"] != -1 or t["pinEnd"] != -1)      # -1 = no pin; a pin before the project start is negative
                         if not (f["start"] <= f["end"] and (user_ms or 0 <= f["start"] <= f["end"] <= hor)):
                             in_h = False
             rows.append({"id": r["id"], "status": r["status"], "accepted": r["status"] != "rejected",
                          "nevents": len(r.get("events", [])) if r["status"] != "rejected" else int(r.get("nevents", 0)),
                          "wall_ms": int(r.get("wall", 0) * 1000), "limit_ms": size_bound_ms(r),
-                         "leafs": len(leafs), "sched": sched, "warned": bool(r.get("warns")), "inHorizon": in_h})
+                         "leafs": len(leafs), "sched": sched, "warned": bool(r.get("warns")), "inHorizon": in_h,
+                         "mustReject": gen.cannot_be_grammatical(job["text"])})
         verdicts, res = decide_outcomes(rows)
         run.add_tlc(res)
         classes = {}
